@@ -222,7 +222,8 @@ def gen_and_run(seed, index, tier, rundir):
 
 def minimise(case, clause, rundir):
     def still(c):
-        v = run_case(c, rundir)
+        seams.install()
+        v = K.forked_call(run_case, c, rundir)
         return v is not None and v[0] == clause
 
     if not still(case):
